@@ -95,7 +95,8 @@ interpolated into rich markup). The model is a model of the repaired tree.
   start with that class black-listed — leaving exactly the known finding D14 outside); and `lex_flat` / `C04_flat_value` (Lemmas/LexFlat.lean):
   flat arithmetic of any length over all fourteen operators is scanned into its tokens (one `Steps` lemma per kind of token, for the
   scanner standing anywhere in the text; `/` vs `//`, `<` vs `<=` decided at the next character) and `Tokenizer.tokenize` of it is the
-  evaluation of the reference precedence parse — scanner, tree builder (`C04_build`) and evaluator composed end to end.
+  evaluation of the reference precedence parse — scanner, tree builder (`C04_build`) and evaluator composed end to end; `lex_flatB`
+  (Lemmas/LexFlatB.lean): blanks of any kind and number before, between and after those tokens change nothing (spacing).
 * `Spec.Prog` (the scoped big-step semantics) exists as the Python reference interpreter `harness/refinterp.py` (the
   construction-side oracle), not as a Lean definition; the refinement of the WHOLE interpreter to it is therefore not proved (the
   environment-level refinement `C08_refines_scoped` and the algebraic laws are). The third sentence of C02 (no DucklingScript-only keyword without a warning) is decided by oracle + correspondence only.
